@@ -59,6 +59,14 @@ func (mgr *TopicManager) subscribe(topics []string, qoss []byte, clientID string
 	mgr.Lock()
 	defer mgr.Unlock()
 
+	// validate every filter before inserting any of them, otherwise a rejected
+	// SUBSCRIBE leaves the filters in front of the invalid one in the trie, where
+	// the session does not know about them and nothing ever removes them.
+	for _, t := range topics {
+		if _, err := mgr.getLevels(t); err != nil {
+			return err
+		}
+	}
 	for i, t := range topics {
 		if err := mgr.insert(t, qoss[i], clientID); err != nil {
 			return err
